@@ -110,6 +110,18 @@ def probe_specs(r):
     return qs
 
 
+def cop_sel_specs(r):
+    """delete_jobs called from inside a coroutine removes exactly the matching jobs - the caller's own job included - and
+    returns their number"""
+    qs = []
+    for i, ob in enumerate(r["obs"]):
+        for (t, k, want, removed, n) in ob.get("cop_sel", []):
+            ok = list(want) == list(removed) and n == len(want)
+            qs.append((f"spec eq {1 if ok else 0} 1", {"what": "aio delete_jobs from a coroutine removes exactly the selection", "op": i, "by": k, "t": t,
+                                                        "selection": list(want), "removed": list(removed), "returned": n}))
+    return qs
+
+
 def idle_specs(r):
     """the loop is idle at every observation point: a registered job with attempts remaining is either inside a run
     (suspended coroutine) or not yet due - nobody is left waiting past a due time (and no supervisor has silently
@@ -135,12 +147,18 @@ def c06_specs(r):
     qs = probe_specs(r) + idle_specs(r)
     jobs = top_jobs(r)
     maxatt = {k: (1 if o["call"] == 5 else o.get("max_att", 0)) for k, o in jobs.items()}
-    nstart, was_reg, gone = {}, set(), set()
+    nstart, ndone, was_reg, gone = {}, {}, set(), set()
     for i, ob in enumerate(r["obs"]):
         for (_t, k, kind, _due) in ob.get("events", []):
             if kind == "S":
                 nstart[k] = nstart.get(k, 0) + 1
+            elif kind in ("E", "X"):
+                ndone[k] = ndone.get(k, 0) + 1
         for k, v in ob["jobs"].items():
+            if not ob.get("spin") and k in jobs:
+                # "a job's attempts counter always equals the number of invocations of its callback so far" (runs that ended,
+                # normally or by raising; a run cancelled by a deletion is not booked)
+                qs.append((f"spec eq {v[2]} {ndone.get(k, 0)}", {"what": "aio attempts = completed invocations", "key": k, "op": i}))
             m = maxatt.get(k, 0)
             if m:
                 qs.append((f"spec le {v[2]} {m}", {"what": "aio budget: attempts <= max_attempts", "key": k, "op": i}))
@@ -208,8 +226,9 @@ def c10_specs(r):
 
 # ------------------------------------------------------------------------------------------ C11
 def c11_specs(r):
-    """registered = created - deleted - retired at every quiescent point"""
-    qs = idle_specs(r)
+    """registered = created - deleted - retired at every quiescent point - and, "at every moment", also at the loop iteration
+    right after the supervisor step that booked a job's last run (probe scheduled with call_soon by every coroutine)"""
+    qs = probe_specs(r) + idle_specs(r) + cop_sel_specs(r)
     for i, (o, ob) in enumerate(zip(r["scn"]["ops"], r["obs"])):
         before = {k for k, v in (r["obs"][i - 1]["jobs"] if i > 0 else {}).items() if v[5] == 1}
         now = {k for k, v in ob["jobs"].items() if v[5] == 1}
@@ -255,7 +274,7 @@ def c12_tweak(rng, scn):
 
 
 def c12_specs(r):
-    qs = []
+    qs = cop_sel_specs(r)
     tags = {k: set(o.get("tags") or []) for k, o in top_jobs(r).items()}
     for i, (o, ob) in enumerate(zip(r["scn"]["ops"], r["obs"])):
         before = {k for k, v in (r["obs"][i - 1]["jobs"] if i > 0 else {}).items() if v[5] == 1}
